@@ -108,7 +108,18 @@ void chk_aod(const Ctx& c, fam::AodObj& o) {
 // ---------------------------------------------------------------- HLL
 void chk_hll(const Ctx& c, fam::HllObj& o) {
   vf::HllImage im = decode(c, vf::parse_hll_image); const auto& sk = o.sk;
-  common(c, im);
+  {
+    // the shared reader leaves the aux area of an updatable HLL_4 image without exceptions unaccounted: the published updatable form reserves
+    // 4 << LG_AUX_ARR_INTS[lg_k] zero bytes for it (published table below)
+    static const int lg_aux[] = {0, 2, 2, 2, 2, 2, 2, 3, 3, 3, 4, 4, 5, 5, 6, 7, 8, 9, 10, 11, 12, 13, 14, 15, 16, 17, 18};
+    size_t expect = im.consumed;
+    if (im.mode == 2 && im.type == 0 && !im.compact_flag && im.aux_count == 0 && im.lg_k <= 26) {
+      size_t pad = size_t(4) << lg_aux[im.lg_k];
+      for (size_t i = im.consumed; i < c.img.size() && i < im.consumed + pad; ++i) VF_CHECK(c.img[i] == 0, "hll-empty-aux", WHO << "the empty aux area of the updatable image is not zero at offset " << i << IMG);
+      expect += pad; vf::label("hll:empty-aux-area");
+    }
+    VF_CHECK(expect == c.img.size(), "image-size", WHO << "the documented layout accounts for " << expect << " bytes, the image has " << c.img.size() << IMG);
+  }
   static const char* modes[] = {"LIST", "SET", "HLL"}; static const char* types[] = {"HLL_4", "HLL_6", "HLL_8"};
   std::string ts(sk.to_string(true, true, true, false).c_str());
   VF_CHECK(im.lg_k == sk.get_lg_config_k(), "hll-lgk", WHO << "lg_k in image " << im.lg_k << " vs API " << int(sk.get_lg_config_k()) << IMG);
@@ -121,16 +132,17 @@ void chk_hll(const Ctx& c, fam::HllObj& o) {
   // detail section of to_string: coupons (index key slot value) or registers (slot value)
   std::set<uint32_t> coupons; std::vector<uint8_t> regs(size_t(1) << im.lg_k, 0); size_t detail_rows = 0;
   {
-    std::istringstream in(ts); std::string line; bool on = false; bool header = false;
-    while (std::getline(in, line)) {
-      if (line.find("### HLL sketch data detail") == 0) { on = true; header = true; continue; }
-      if (line.find("### End HLL sketch data detail") == 0) break;
-      if (!on) continue;
-      if (header) { header = false; continue; }
-      std::istringstream ls(line); std::vector<uint64_t> f; uint64_t x; while (ls >> x) f.push_back(x);
-      if (im.mode == 2) { VF_CHECK(f.size() == 2 && f[0] < regs.size(), "hll-detail-parse", WHO << "unexpected detail line '" << line << "'"); regs[f[0]] = static_cast<uint8_t>(f[1]); }
-      else { VF_CHECK(f.size() == 4, "hll-detail-parse", WHO << "unexpected detail line '" << line << "'"); coupons.insert(static_cast<uint32_t>((f[3] << 26) | f[1])); }
-      ++detail_rows;
+    // fixed-width records: the value column is streamed as a raw byte (uint8_t), so it can be any character including a newline;
+    // coupons: index(10) key(10) slot(10) value(6) '\n'; registers: slot(10) value(6) '\n'
+    size_t p = ts.find("### HLL sketch data detail"); VF_CHECK(p != std::string::npos, "hll-detail-parse", WHO << "no detail section in to_string");
+    p = ts.find('\n', p) + 1; p = ts.find('\n', p) + 1;  // section title, column header
+    const size_t rec = im.mode == 2 ? 17 : 37, voff = im.mode == 2 ? 10 : 30;
+    while (ts.compare(p, 9, "### End H") != 0) {
+      VF_CHECK(p + rec <= ts.size() && ts[p + rec - 1] == '\n', "hll-detail-parse", WHO << "unexpected detail record at offset " << p << ": '" << ts.substr(p, 40) << "'");
+      uint8_t val = static_cast<uint8_t>(ts[p + voff]);
+      if (im.mode == 2) { unsigned long slot = std::stoul(ts.substr(p, 10)); VF_CHECK(slot < regs.size(), "hll-detail-parse", WHO << "slot " << slot << " out of range"); regs[slot] = val; }
+      else { unsigned long key = std::stoul(ts.substr(p + 10, 10)), slot = std::stoul(ts.substr(p + 20, 10)); VF_CHECK(slot == (key & ((1ul << im.lg_k) - 1)), "hll-detail-slot", WHO << "listed slot " << slot << " is not the low lg_k bits of key " << key); coupons.insert((static_cast<uint32_t>(val) << 26) | static_cast<uint32_t>(key)); }
+      ++detail_rows; p += rec;
     }
   }
   if (im.mode != 2) {
@@ -239,7 +251,7 @@ template <typename SK, typename T, typename C> void chk_req(const Ctx& c, SK& sk
   VF_CHECK(fld(ts, "Sorted") == tf(im.f_l0_sorted), "req-l0-sorted", WHO << "level-zero-sorted flag " << im.f_l0_sorted << " vs to_string " << fld(ts, "Sorted") << IMG);
   VF_CHECK((im.num_levels > 1) == sk.is_estimation_mode(), "req-estimation", WHO << int(im.num_levels) << " levels in image vs is_estimation_mode " << sk.is_estimation_mode());
   if (!im.f_empty) VF_CHECK(fld(ts, "Levels") == std::to_string(im.num_levels), "req-levels", WHO << "number of levels in image " << int(im.num_levels) << " vs to_string " << fld(ts, "Levels") << IMG);
-  VF_CHECK(im.f_raw == (!sk.is_empty() && sk.get_n() <= 4), "req-raw", WHO << "raw-items flag " << im.f_raw << " with n " << sk.get_n() << " (documented for 1..4 items)" << IMG);
+  VF_CHECK(im.f_raw == (sk.get_n() <= 4), "req-raw", WHO << "raw-items flag " << im.f_raw << " with n " << sk.get_n() << " (documented for n <= 4)" << IMG);
   VF_CHECK(im.retained == sk.get_num_retained(), "req-retained", WHO << im.retained << " items in the image vs get_num_retained " << sk.get_num_retained() << IMG);
   std::vector<std::pair<T, uint64_t>> img_items;
   for (size_t h = 0; h < im.levels.size(); ++h) {
@@ -564,10 +576,21 @@ void prop(const Case& cs) {
   if (any_nonempty) vf::nontrivial();
 }
 
+// recipes as in vf::fam::recipe_gen (same cfg / op vocabulary, interpreted by vf::fam::make), but with batch sizes weighted towards the
+// small states whose images have their own layout (single item, raw items, exact mode, LIST/SET coupons, warm-up, buffer-only) and fewer empties
 rc::Gen<Case> gen() {
   using namespace vf;
-  auto base = fam::recipe_gen(range(0, fam::NFAM - 1));
-  return rc::gen::map(rc::gen::tuple(base, range(0, 3)), [](std::tuple<Case, int64_t> t) { Case c = std::get<0>(t); c.cfg.emplace_back("pre", std::get<1>(t)); return c; });
+  auto nGen = rc::gen::weightedOneOf<int64_t>({{1, range(0, 1)}, {1, rc::gen::just<int64_t>(1)}, {3, range(2, 12)}, {2, range(13, 60)}, {3, range(61, 300)}, {3, range(300, 3500)}});
+  auto mk = [nGen](const char* name) {
+    std::string nm(name);
+    return rc::gen::map(rc::gen::tuple(nGen, range(0, 7), range(0, 1 << 20), range(0, 63)), [nm](std::tuple<int64_t, int64_t, int64_t, int64_t> t) { return Op{nm, {std::get<0>(t), std::get<1>(t), std::get<2>(t), std::get<3>(t)}}; });
+  };
+  // one mandatory batch (an op list may come out empty) followed by a size-scaled list of further update / merge batches
+  auto ops = rc::gen::map(rc::gen::tuple(choose({{4, mk("u")}, {1, mk("m")}}), oplist(choose({{3, mk("u")}, {1, mk("m")}}), 1, 0.05)),
+                          [](std::tuple<Op, std::vector<Op>> t) { std::vector<Op> v; v.push_back(std::get<0>(t)); for (auto& o : std::get<1>(t)) v.push_back(o); return v; });
+  return make_case({{"fam", range(0, fam::NFAM - 1)}, {"a", range(0, 1 << 16)}, {"b", range(0, 1 << 16)}, {"c", range(0, 1 << 16)},
+                    {"seed", rc::gen::weightedOneOf<int64_t>({{3, rc::gen::just<int64_t>(0)}, {1, range(1, 1000)}})}, {"rnd", range(1, 1 << 20)}, {"pre", range(0, 3)}},
+                   ops);
 }
 
 }  // namespace
